@@ -216,6 +216,10 @@ def get(tier, seed):
     return stage.cached("glr-" + tier, {"tier": tier, "seed": seed, "params": PARAMS[tier]}, lambda: build(tier, seed))
 
 
+def ensure(tier, seed):
+    stage.ensure("glr-" + tier, {"tier": tier, "seed": seed, "params": PARAMS[tier]}, lambda: build(tier, seed))
+
+
 def judge_replay(rc):
     """Re-run one recorded case (replay file) through the real code and TLC."""
     from . import corpus_glr, real
